@@ -1,6 +1,8 @@
 """C03 - Price index is a flow-neutral return index starting at 100"""
 from pyvc.runner import func
 
+UPDATE_ALL = [func("bt.core.StrategyBase.update", variant=v) for v in ("flat", "paper", "nested", "nested-paper")]
+
 ID = "C03"
 META = {
     "assumptions": ['A-REAL', 'A-COMM', 'A-T', 'A-IND', 'A-DATA-NONE', 'A-CYTHON', 'A-SOLVER', 'A-ENGINE'],
@@ -8,14 +10,14 @@ META = {
 }
 MANIFEST_ENTRY = {
     "level_text": 'Deductive proof of the recurrence, the resets and the flow accounting for all inputs; flow-neutrality and scale-invariance as lemmas over the proved recurrence.',
-    "level_note": "Reals not floats; Backtest.run's call order (setup; adjust(initial capital); update(dates[0]); ...) is read from source but not yet under contract; scale invariance through SecurityBase.allocate's isclose exit (absolute 1e-8) is not homogeneous and not claimed; update variant 'flat'.",
+    "level_note": "Reals not floats; Backtest.run's call order (setup; adjust(initial capital); update(dates[0]); ...) is read from source but not yet under contract; scale invariance through SecurityBase.allocate's isclose exit (absolute 1e-8) is not homogeneous and not claimed.",
     "technique": "contract-based deductive verification: VCs from the real AST (pyvc) discharged by z3/cvc5; loop invariants with ghost sums; lemmas over contract clauses",
 }
 
 
 def tasks(tier, seed):
     return [
-        func("bt.core.StrategyBase.update", variant="flat"),
+        *UPDATE_ALL,
         func("bt.core.StrategyBase.adjust"),
         dict(kind="custom", module="props.lemmas", fn="c03_index_lemmas"),
         dict(kind="custom", module="props.lemmas", fn="c07_trade_lemmas"),
